@@ -14,7 +14,7 @@ EXPLANATION = (
     "C13.d push/pop of the argument frame and activation/restoration of the macro instance bracket exactly the body "
     "expansion. C13.e lookup scans the whole frame stack innermost-first before any global table; early binding is "
     "applied to exactly the identifier kinds; substituted expression arguments are re-parsed with the destination type "
-    "propagated. C13.f expansion depth is bounded by a diagnosed error (no RecursionError).")
+    "propagated. C13.f expansion depth is bounded by a diagnosed error (no RecursionError). C13.g late-bound (match/expr) arguments keep the meaning their names have at the call site: the stored tree carries a snapshot of the call-site frames taken before the callee frame is pushed, every parse entry point switches to that snapshot before looking at the tree and restores the stack in a finally, and looked-up argument trees reach only those entry points.")
 NOT_DECIDED = "behavioural equivalence of a macro call with its hand-inlined body (needs the compiled machines); hygiene of names captured by late-bound match/expr arguments"
 ENGINES = ["E1 source model", "E2 grammar model", "E3 dispatch"]
 
